@@ -97,10 +97,8 @@ func (cc *LBClient) Do(req *Request, resp *Response) error {
 func (cc *LBClient) init() {
 	cc.mu.Lock()
 	defer cc.mu.Unlock()
-	if len(cc.Clients) == 0 {
-		// developer sanity-check
-		panic("BUG: LBClient.Clients cannot be empty")
-	}
+	// An empty Clients list isn't an error: clients may be added later
+	// via AddClient, and get reports ErrNoAvailableClients until then.
 	for _, c := range cc.Clients {
 		cc.cs = append(cc.cs, &lbClient{
 			c:           c,
